@@ -14,6 +14,8 @@
 //	issue <t|f> <inc>                             PD assigns last+inc+1 to the request of thread t / of the flight -> ts
 //	arrive <t|f>                                  the response reaches the caller; goroutines run to quiescence    -> <outcome>
 //	   <outcome> = low <cached ts|none> done <t=result,...|-> flight <0|1: a flight request waits at PD>
+//	cancel <t>                                    the context given to call t is cancelled; goroutines run to quiescence   -> <outcome>
+//	                                              (a call that returns the context error shows as t=cancelled)
 //	low                                           GetLowResolutionTimestamp(+Async)
 //	isexp|until|p-exp <g|x> <lockTS> <ttl>        IsExpired / UntilExpired / property: expired <=> until <= 0  (x: unknown scope)
 //	compose <p> <l> | phys <ts> | p-ts <p> <l>    ComposeTS / ExtractPhysical+ExtractLogical / round trip
@@ -96,46 +98,73 @@ func (c *scriptPD) register(ctx context.Context) (*pdCall, uint64, bool) {
 		c.last++
 		return nil, c.last, true
 	}
+	// who asks: the validation flight and the updater are recognised by their call stack (whatever context they pass),
+	// client calls by the value the harness put into their context
 	owner := -1
-	if v, ok := ctx.Value(ownerKey{}).(int); ok {
-		owner = v
-	} else if calledFromUpdater() {
+	switch calledFrom() {
+	case "flight":
+	case "updater":
 		owner = -2
+	default:
+		if v, ok := ctx.Value(ownerKey{}).(int); ok {
+			owner = v
+		}
 	}
 	call := &pdCall{owner: owner, ch: make(chan uint64, 1)}
 	c.calls = append(c.calls, call)
 	return call, 0, false
 }
 
-// calledFromUpdater: is pdOracle.updateTS on the call stack (the request comes from the background updater)?
-func calledFromUpdater() bool {
+// calledFrom: "updater" if pdOracle.updateTS is on the call stack, "flight" if the single-flight fetch of
+// getCurrentTSForValidation is, "" otherwise
+func calledFrom() string {
 	pcs := make([]uintptr, 32)
 	n := runtime.Callers(2, pcs)
 	frames := runtime.CallersFrames(pcs[:n])
 	for {
 		fr, more := frames.Next()
 		if strings.Contains(fr.Function, "(*pdOracle).updateTS") {
-			return true
+			return "updater"
+		}
+		if strings.Contains(fr.Function, "(*pdOracle).getCurrentTSForValidation") || strings.Contains(fr.Function, "singleflight.") {
+			return "flight"
 		}
 		if !more {
-			return false
+			return ""
 		}
 	}
 }
 
+// await serves one request: the response, or the error of the request's own context if that is cancelled first
+// (a PD client honours the context of the request it is serving; the request is then gone).
+//
 //go:noinline
-func (c *scriptPD) await(call *pdCall) uint64 { return <-call.ch }
+func (c *scriptPD) await(ctx context.Context, call *pdCall) (uint64, error) {
+	select {
+	case v := <-call.ch:
+		return v, nil
+	case <-ctx.Done():
+		c.mu.Lock()
+		call.released = true
+		c.mu.Unlock()
+		return 0, ctx.Err()
+	}
+}
 
 func (c *scriptPD) GetTS(ctx context.Context) (int64, int64, error) {
 	call, v, now := c.register(ctx)
 	if !now {
-		v = c.await(call)
+		var err error
+		if v, err = c.await(ctx, call); err != nil {
+			return 0, 0, err
+		}
 	}
 	p, l := split(v)
 	return p, l, nil
 }
 
 type pdFuture struct {
+	ctx  context.Context
 	c    *scriptPD
 	call *pdCall
 	v    uint64
@@ -144,7 +173,10 @@ type pdFuture struct {
 func (f *pdFuture) Wait() (int64, int64, error) {
 	v := f.v
 	if f.call != nil {
-		v = f.c.await(f.call)
+		var err error
+		if v, err = f.c.await(f.ctx, f.call); err != nil {
+			return 0, 0, err
+		}
 	}
 	p, l := split(v)
 	return p, l, nil
@@ -152,7 +184,7 @@ func (f *pdFuture) Wait() (int64, int64, error) {
 
 func (c *scriptPD) GetTSAsync(ctx context.Context) tso.TSFuture {
 	call, v, _ := c.register(ctx)
-	return &pdFuture{c: c, call: call, v: v}
+	return &pdFuture{ctx: ctx, c: c, call: call, v: v}
 }
 
 func (c *scriptPD) find(owner int, issued bool) *pdCall {
@@ -231,7 +263,7 @@ func allParked(dump []byte) bool {
 		}
 		state := head[lb+1:]
 		switch {
-		case bytes.HasPrefix(state, stRecv) && bytes.Contains(g, atPD):
+		case (bytes.HasPrefix(state, stRecv) || bytes.HasPrefix(state, stSelect)) && bytes.Contains(g, atPD):
 		case bytes.HasPrefix(state, stSelect) && bytes.Contains(g, atFlight):
 		case updater && bytes.HasPrefix(state, stSelect) && bytes.Contains(g, byUpdater) && !bytes.Contains(g, atPD):
 			// the updater idles in the select of its loop
@@ -251,8 +283,9 @@ type result struct {
 }
 
 type getObs struct {
-	start, done int // op sequence numbers; done = 0 while running
+	start, done int // op sequence numbers; done = 0 while running or when it failed
 	ts          uint64
+	res         string
 }
 type valObs struct {
 	rd, issuedAtStart, issuedAtEnd uint64
@@ -267,6 +300,8 @@ type world struct {
 	results chan result
 	seq     int
 	running map[int]bool
+	cancels map[int]context.CancelFunc // per client call: cancels the context it was given
+	killed  map[int]bool               // the script cancelled that context
 	gets    map[int]*getObs
 	vals    map[int]*valObs
 	lowObs  []lowObs
@@ -306,8 +341,7 @@ func (w *world) observe() {
 }
 
 //go:noinline
-func workerGet(w *world, t int, async bool) {
-	ctx := context.WithValue(context.Background(), ownerKey{}, t)
+func workerGet(w *world, ctx context.Context, t int, async bool) {
 	var ts uint64
 	var err error
 	if async {
@@ -316,15 +350,14 @@ func workerGet(w *world, t int, async bool) {
 		ts, err = w.o.GetTimestamp(ctx, opt("g"))
 	}
 	if err != nil {
-		w.results <- result{t: t, res: "error"}
+		w.results <- result{t: t, res: verdict(err)}
 		return
 	}
 	w.results <- result{t: t, res: strconv.FormatUint(ts, 10), ts: ts}
 }
 
 //go:noinline
-func workerVal(w *world, t int, rd uint64, stale bool) {
-	ctx := context.WithValue(context.Background(), ownerKey{}, t)
+func workerVal(w *world, ctx context.Context, t int, rd uint64, stale bool) {
 	err := w.o.ValidateReadTS(ctx, rd, stale, opt("g"))
 	w.results <- result{t: t, res: verdict(err)}
 }
@@ -338,6 +371,9 @@ func verdict(err error) string {
 	case oracle.ErrLatestStaleRead:
 		return "err-latest"
 	default:
+		if strings.Contains(e.Error(), context.Canceled.Error()) {
+			return "cancelled"
+		}
 		if strings.Contains(e.Error(), "MaxInt64 <= readTS") {
 			return "err-range"
 		}
@@ -390,7 +426,10 @@ func (w *world) settleWith(fin []result) string {
 	for _, r := range fin {
 		delete(w.running, r.t)
 		if g := w.gets[r.t]; g != nil {
-			g.done, g.ts = w.seq, r.ts
+			g.res = r.res
+			if r.res != "cancelled" && r.res != "error" {
+				g.done, g.ts = w.seq, r.ts
+			}
 		}
 		if v := w.vals[r.t]; v != nil {
 			v.verdict, v.issuedAtEnd = r.res, maxIssued
@@ -426,6 +465,12 @@ func (w *world) check() string {
 			}
 		}
 	}
+	// PD never fails in these scripts: a call may only fail if its OWN context was cancelled
+	for t, g := range w.gets {
+		if (g.res == "cancelled" || g.res == "error") && !w.killed[t] {
+			return fmt.Sprintf("FAIL live-context GetTimestamp call %d failed (%s)", t, g.res)
+		}
+	}
 	ids := make([]int, 0, len(w.vals))
 	for t := range w.vals {
 		ids = append(ids, t)
@@ -433,6 +478,10 @@ func (w *world) check() string {
 	sort.Ints(ids)
 	for _, t := range ids {
 		v := w.vals[t]
+		if (v.verdict == "cancelled" || v.verdict == "error") && !w.killed[t] {
+			return fmt.Sprintf("FAIL live-context ValidateReadTS call %d of readTS %d (issued before the call: %d) failed (%s) although its own context is alive",
+				t, v.rd, v.issuedAtStart, v.verdict)
+		}
 		if v.verdict == "accept" && v.rd > v.issuedAtEnd {
 			return fmt.Sprintf("FAIL accept-future readTS %d issued %d", v.rd, v.issuedAtEnd)
 		}
@@ -612,7 +661,7 @@ func exec(line string) string {
 	return vx.Guard(func() string {
 		out := exec1(line)
 		switch strings.Fields(line + " .")[0] {
-		case "get", "aget", "val", "issue", "arrive", "tick":
+		case "get", "aget", "val", "issue", "arrive", "tick", "cancel":
 			if w != nil && out != "bad-op" {
 				if c := w.check(); c != "ok" {
 					return c + " | " + out
@@ -632,7 +681,7 @@ func exec1(line string) string {
 	i := func(s string) (int64, bool) { v, err := strconv.ParseInt(s, 10, 64); return v, err == nil }
 	if f[0] != "reset" && w == nil {
 		switch f[0] {
-		case "get", "aget", "val", "issue", "arrive", "tick", "low", "check", "isexp", "until", "p-exp":
+		case "get", "aget", "val", "issue", "arrive", "tick", "cancel", "low", "check", "isexp", "until", "p-exp":
 			return "bad-op"
 		}
 	}
@@ -662,11 +711,14 @@ func exec1(line string) string {
 				r := <-w.results
 				delete(w.running, r.t)
 			}
+			for _, c := range w.cancels {
+				c()
+			}
 			w.o.Close()
 		}
 		oracles.EnableTSValidation.Store(f[3] == "1")
 		p := &scriptPD{last: pd0}
-		nw := &world{hasUpd: withUpd, pd: p, results: make(chan result, 4096), running: map[int]bool{}, gets: map[int]*getObs{}, vals: map[int]*valObs{}}
+		nw := &world{cancels: map[int]context.CancelFunc{}, killed: map[int]bool{}, hasUpd: withUpd, pd: p, results: make(chan result, 4096), running: map[int]bool{}, gets: map[int]*getObs{}, vals: map[int]*valObs{}}
 		if f[1] == "seeded" {
 			p.auto = true
 			// with the updater: its ticker period is an hour, so it only moves when the script makes it (op `tick`)
@@ -694,7 +746,9 @@ func exec1(line string) string {
 		}
 		w.running[t] = true
 		w.gets[t] = &getObs{start: w.seq}
-		go workerGet(w, t, f[0] == "aget")
+		ctx, cancel := context.WithCancel(context.WithValue(context.Background(), ownerKey{}, t))
+		w.cancels[t] = cancel
+		go workerGet(w, ctx, t, f[0] == "aget")
 		for spin := 0; w.pd.find(t, false) == nil; spin++ {
 			if spin < 200 {
 				runtime.Gosched()
@@ -727,7 +781,9 @@ func exec1(line string) string {
 		}
 		w.running[t] = true
 		w.vals[t] = &valObs{rd: rd, issuedAtStart: issued}
-		go workerVal(w, t, rd, stale)
+		ctx, cancel := context.WithCancel(context.WithValue(context.Background(), ownerKey{}, t))
+		w.cancels[t] = cancel
+		go workerVal(w, ctx, t, rd, stale)
 		out := w.settle()
 		w.observe()
 		return out
@@ -767,6 +823,16 @@ func exec1(line string) string {
 		} else {
 			out = w.settle()
 		}
+		w.observe()
+		return out
+	case f[0] == "cancel" && len(f) == 2:
+		t, ok := parseWho(f[1])
+		if !ok || t < 0 || (w.gets[t] == nil && w.vals[t] == nil) {
+			return "bad-op"
+		}
+		w.killed[t] = true
+		w.cancels[t]()
+		out := w.settle()
 		w.observe()
 		return out
 	case f[0] == "tick" && len(f) == 1:
@@ -933,6 +999,12 @@ func (g *gen) enabled(next, n int) []event {
 			ev = append(ev, event{"start", next})
 		}
 	}
+	// the context of a cancellable caller (lower-case kind) may be cancelled while the call is running
+	for t := 0; t < next && t < len(g.kinds); t++ {
+		if g.kinds[t] >= 'a' && g.kinds[t] <= 'z' && w.running[t] && !w.killed[t] {
+			ev = append(ev, event{"cancel", t})
+		}
+	}
 	w.pd.mu.Lock()
 	for _, k := range w.pd.calls {
 		if k.released {
@@ -964,6 +1036,9 @@ func (g *gen) startCaller(t int, kind byte) {
 	w.pd.mu.Lock()
 	last := w.pd.last
 	w.pd.mu.Unlock()
+	if kind >= 'a' && kind <= 'z' {
+		kind = kind - 'a' + 'A' // cancellable variant of the same call
+	}
 	if kind == 'S' && w.hasUpd {
 		kind = 'P' // a stale read may signal the updater to shrink its interval: keep the updater under script control
 	}
@@ -1015,6 +1090,8 @@ func (g *gen) runSchedule(mode string, pd0 uint64, kinds string, choices []int, 
 			g.do(fmt.Sprintf("issue %s %d", whoStr(e.who), incOf()))
 		case "arrive":
 			g.do("arrive " + whoStr(e.who))
+		case "cancel":
+			g.do("cancel " + whoStr(e.who))
 		}
 	}
 	g.do("low")
@@ -1137,6 +1214,9 @@ func (g *gen) randomCase() {
 	kinds := make([]byte, n)
 	for k := range kinds {
 		kinds[k] = alpha[r.Intn(len(alpha))]
+		if kinds[k] != 'U' && kinds[k] != 'A' && r.Chance(30) {
+			kinds[k] = kinds[k] - 'A' + 'a' // its context may be cancelled
+		}
 	}
 	mode := "seeded"
 	if r.Chance(35) {
@@ -1180,6 +1260,8 @@ func (g *gen) randomCase() {
 			g.do(fmt.Sprintf("issue %s %d", whoStr(e.who), incOf()))
 		case "arrive":
 			g.do("arrive " + whoStr(e.who))
+		case "cancel":
+			g.do("cancel " + whoStr(e.who))
 		}
 		if r.Chance(15) {
 			g.do("low")
@@ -1414,6 +1496,31 @@ func main() {
 				g.exhaustive("seeded", kinds, false)
 			}
 		}
+	}
+	// cancellation: callers whose context may be cancelled at any point while they run (lower case)
+	for n := 1; n <= 2; n++ {
+		for si, kinds := range allKinds("GPNFgpnf", n) {
+			if strings.ToUpper(kinds) == kinds {
+				continue
+			}
+			g.exhaustive("seeded", kinds, false)
+			if thorough || n == 1 || si%4 == 0 {
+				g.exhaustive("empty", kinds, false)
+			}
+		}
+	}
+	cancel3 := []string{"nNN", "NnN", "GnN", "GnP", "gNN", "nfP", "gGN"}
+	if thorough {
+		cancel3 = nil
+		for _, kinds := range allKinds("GNgn", 3) {
+			if strings.ToUpper(kinds) != kinds {
+				cancel3 = append(cancel3, kinds)
+			}
+		}
+		cancel3 = append(cancel3, "nfP", "GfP", "fGP", "GnP", "pNG", "UnN", "nUN")
+	}
+	for _, kinds := range cancel3 {
+		g.exhaustive("seeded", kinds, false)
 	}
 	if !thorough {
 		// 4 concurrent callers: all issue/arrival orders once everybody has called
